@@ -106,6 +106,9 @@ bool splinetable<Alloc>::write_key(const char* key, const T& value){
 										 "contain lowercase characters (key was '"+
 										 std::string(key)+"')");
 		}
+		if(13+keylen-1>=80)
+			throw std::runtime_error("Key is too long to be stored as a FITS keyword ('"
+									 +std::string(key)+"' has length "+std::to_string(keylen-1)+")");
 		maxdatalen=80-(13+keylen-1); //14 characters for "HIERARCH ", "= '", and "'"
 	}
 	std::ostringstream ss;
@@ -154,10 +157,15 @@ bool splinetable<Alloc>::write_key(const char* key, const T& value){
 			new_key=allocate<char>(keylen);
 			new_value=allocate<char>(valuelen);
 		}catch(...){
-			deallocate(new_aux,naux+1);
-			deallocate(new_entry,2);
-			deallocate(new_key,keylen);
-			deallocate(new_value,valuelen);
+			//only what was actually obtained can be given back
+			if(new_aux)
+				deallocate(new_aux,naux+1);
+			if(new_entry)
+				deallocate(new_entry,2);
+			if(new_key)
+				deallocate(new_key,keylen);
+			if(new_value)
+				deallocate(new_value,valuelen);
 			throw std::runtime_error("Unable to allocate storage for additional aux key");
 		}
 		//copy over existing data
